@@ -137,55 +137,57 @@ theorem C08_pm_batch_panics :
 
 /-! ## the full C08 statement is false for the persistent backend -/
 
-/-- an `Ok` answer of the backend can only refine an accepted request -/
-theorem C08Pm.refines_ok {t : Tree.Pm Nat C08Pm.ExD} {s : Tree.Ideal Nat}
-    {r : Tree.Pm Nat C08Pm.ExD × Outcome Unit} {os : Outcome (Tree.Ideal Nat)}
-    (h : Tree.PmRefines C08Pm.exH 0 t s r os) (hr : r.2 = .ok ()) :
-    Tree.Pm.Rel C08Pm.exH 0 r.1 (Tree.keepOk s os) := by
-  obtain ⟨r1, r2⟩ := r
-  cases r2 <;> cases os <;> simp [Tree.PmRefines, Tree.keepOk] at h hr ⊢
-  exact h
+/-- the refinement statement for `Pm.overrideRange` against `Ideal.batch`, at the concrete store,
+    batch map and hash of this file -/
+def C08Pm.BatchRefines : Prop :=
+  ∀ (t : Tree.Pm Nat C08Pm.ExD) (s : Tree.Ideal Nat) (start : Nat) (vs : List Nat) (rem : List Nat),
+    Tree.Pm.Rel C08Pm.exH 0 t s →
+    Tree.PmRefines C08Pm.exH 0 t s (Tree.Pm.overrideRange C08Pm.ExS C08Pm.exH 0 start vs rem t)
+      (Tree.Ideal.batch 0 s start vs rem)
+
+/-- what the refinement statement says about one call on related states (all parameters abstract):
+    no panic, and a position below the capacity reads as the specification's leaf afterwards
+    (`PmRefines.keep`, `Pm.obs_eq`) -/
+theorem C08Pm.of_batchRefines (hall : C08Pm.BatchRefines)
+    (t : Tree.Pm Nat C08Pm.ExD) (s : Tree.Ideal Nat) (start : Nat) (vs : List Nat) (rem : List Nat)
+    (hrel : Tree.Pm.Rel C08Pm.exH 0 t s) :
+    (Tree.Pm.overrideRange C08Pm.ExS C08Pm.exH 0 start vs rem t).2 ≠ .panic ∧
+    ∀ i, i < 2 ^ (Tree.keepOk s (Tree.Ideal.batch 0 s start vs rem)).depth →
+      (Tree.Pm.overrideRange C08Pm.ExS C08Pm.exH 0 start vs rem t).1.get i =
+        .ok ((Tree.keepOk s (Tree.Ideal.batch 0 s start vs rem)).leaf 0 i) := by
+  have h := (hall t s start vs rem hrel).keep
+  refine ⟨h.2.2, fun i hi => ?_⟩
+  have hget := (Pm.obs_eq C08Pm.ExD C08Pm.exH 0 _ _ h.1).2.2.1 i
+  rw [if_pos hi] at hget
+  exact hget
 
 /-- the witness of `C08_pm_batch_wrong_offset` in the shape of one call on the state after
     `C08Pm.pre` (the run of the extended history is this state by definition of `Pm.run`) -/
 theorem C08Pm.wrong_offset_step :
-    (Tree.Pm.overrideRange C08Pm.ExS C08Pm.exH 0 5 [100, 101] [2, 3] (C08Pm.pm C08Pm.pre)).2 = .ok () ∧
     (Tree.Pm.overrideRange C08Pm.ExS C08Pm.exH 0 5 [100, 101] [2, 3] (C08Pm.pm C08Pm.pre)).1.get 2 = .ok 12 ∧
     (Tree.keepOk (C08Pm.ideal C08Pm.pre)
       (Tree.Ideal.batch 0 (C08Pm.ideal C08Pm.pre) 5 [100, 101] [2, 3])).leaf 0 2 = 0 ∧
-    (Tree.keepOk (C08Pm.ideal C08Pm.pre)
-      (Tree.Ideal.batch 0 (C08Pm.ideal C08Pm.pre) 5 [100, 101] [2, 3])).depth = 4 := by
+    2 < 2 ^ (Tree.keepOk (C08Pm.ideal C08Pm.pre)
+      (Tree.Ideal.batch 0 (C08Pm.ideal C08Pm.pre) 5 [100, 101] [2, 3])).depth := by
   decide +kernel
 
 /-- `Pm.overrideRange` does not refine `Ideal.batch`: the state before the call refines the ideal
-    one (`Pm.run_rel`), the call returns `Ok`, a refining result would have the ideal leaves
-    (`Pm.obs_eq`), but position 2 still holds `12`. -/
+    one (`Pm.run_rel`), a refining result would have the ideal leaves (`Pm.obs_eq`), but position 2
+    still holds `12` where the specification has the default leaf. -/
 theorem C08_pm_batch_refinement_fails :
     ¬ (∀ (t : Tree.Pm Nat C08Pm.ExD) (s : Tree.Ideal Nat) (start : Nat) (vs : List Nat) (rem : List Nat),
         Tree.Pm.Rel C08Pm.exH 0 t s →
         Tree.PmRefines C08Pm.exH 0 t s (Tree.Pm.overrideRange C08Pm.ExS C08Pm.exH 0 start vs rem t)
           (Tree.Ideal.batch 0 s start vs rem)) := by
   intro hall
-  have h := hall (C08Pm.pm C08Pm.pre) (C08Pm.ideal C08Pm.pre) 5 [100, 101] [2, 3] C08Pm.pre_rel
-  obtain ⟨hok, hpm, hid, hdepth⟩ := C08Pm.wrong_offset_step
-  have hrel := C08Pm.refines_ok h hok
-  have hget := (Pm.obs_eq C08Pm.ExD C08Pm.exH 0 _ _ hrel).2.2.1 2
-  rw [hpm, hid, hdepth] at hget
+  have hget := (C08Pm.of_batchRefines hall _ _ 5 [100, 101] [2, 3] C08Pm.pre_rel).2 2
+    C08Pm.wrong_offset_step.2.2
+  rw [C08Pm.wrong_offset_step.1, C08Pm.wrong_offset_step.2.1] at hget
   exact absurd hget (by decide)
 
 /-- the same conclusion from the panic: a panicking call refines nothing -/
-theorem C08_pm_batch_refinement_fails_panic :
-    ¬ (∀ (t : Tree.Pm Nat C08Pm.ExD) (s : Tree.Ideal Nat) (start : Nat) (vs : List Nat) (rem : List Nat),
-        Tree.Pm.Rel C08Pm.exH 0 t s →
-        Tree.PmRefines C08Pm.exH 0 t s (Tree.Pm.overrideRange C08Pm.ExS C08Pm.exH 0 start vs rem t)
-          (Tree.Ideal.batch 0 s start vs rem)) := by
-  intro hall
-  have h := hall _ _ 0 [100, 101] [5] C08Pm.pre_rel
-  have hp : (Tree.Pm.overrideRange C08Pm.ExS C08Pm.exH 0 0 [100, 101] [5] (C08Pm.pm C08Pm.pre)).2 = .panic :=
-    C08_pm_batch_panics.1
-  unfold Tree.PmRefines at h
-  rw [hp] at h
-  exact h
+theorem C08_pm_batch_refinement_fails_panic : ¬ C08Pm.BatchRefines := fun hall =>
+  (C08Pm.of_batchRefines hall _ _ 0 [100, 101] [5] C08Pm.pre_rel).1 C08_pm_batch_panics.1
 
 /-- and on histories: dropping `PmCovered` from `C06_pm_observables` makes it false -/
 theorem C08_pm_history_statement_fails :
